@@ -71,6 +71,7 @@ type modelState struct {
 	hmsB           *smt.Builder
 	ymdMemo        map[int]ymdEntry
 	usMemo         map[int]TimeV
+	syncMaps       map[*value]*[]syncMapEntry
 	civilMemo      map[int][3]*smt.Term
 	pureMemo       map[*ssa.BasicBlock]bool
 	IfConverted    int
@@ -88,6 +89,7 @@ func (ex *Exec) modelReset() {
 	ex.exactFloat = false
 	ex.ymdMemo = nil
 	ex.usMemo = nil
+	ex.syncMaps = nil
 	ex.civilMemo = nil
 }
 
@@ -187,6 +189,74 @@ func (ex *Exec) wantConcrete(s value, what string) string {
 		panic(ex.unsupported(what + ": symbolic string where a constant is needed"))
 	}
 	return c
+}
+
+// sync.Map: a list of (key, value) pairs per map object, keys compared with Go's ==. Concurrency is not modelled (the
+// engine runs one goroutine); what matters here is that state kept in a sync.Map between calls is visible to the next call.
+type syncMapEntry struct{ k, v value }
+
+func (ex *Exec) syncMapOf(recv value) *[]syncMapEntry {
+	p, ok := recv.(*value)
+	if !ok || p == nil {
+		panic(ex.unsupported("sync.Map method on a nil or non-pointer receiver"))
+	}
+	if ex.syncMaps == nil {
+		ex.syncMaps = map[*value]*[]syncMapEntry{}
+	}
+	m := ex.syncMaps[p]
+	if m == nil {
+		m = &[]syncMapEntry{}
+		ex.syncMaps[p] = m
+	}
+	return m
+}
+
+func (ex *Exec) syncMapFind(m *[]syncMapEntry, k value) int {
+	for i, e := range *m {
+		eq := ex.eqVal(nil, e.k, k)
+		c, isC := eq.ConstBool()
+		if !isC {
+			panic(ex.unsupported("sync.Map with symbolic keys"))
+		}
+		if c {
+			return i
+		}
+	}
+	return -1
+}
+
+func init() {
+	reg("(*sync.Map).Load", func(ex *Exec, fr *frame, pos token.Pos, args []value) value {
+		m := ex.syncMapOf(args[0])
+		if i := ex.syncMapFind(m, args[1]); i >= 0 {
+			return tuple{(*m)[i].v, ex.b.True}
+		}
+		return tuple{iface{}, ex.b.False}
+	})
+	reg("(*sync.Map).Store", func(ex *Exec, fr *frame, pos token.Pos, args []value) value {
+		m := ex.syncMapOf(args[0])
+		if i := ex.syncMapFind(m, args[1]); i >= 0 {
+			(*m)[i].v = args[2]
+		} else {
+			*m = append(*m, syncMapEntry{args[1], args[2]})
+		}
+		return nil
+	})
+	reg("(*sync.Map).LoadOrStore", func(ex *Exec, fr *frame, pos token.Pos, args []value) value {
+		m := ex.syncMapOf(args[0])
+		if i := ex.syncMapFind(m, args[1]); i >= 0 {
+			return tuple{(*m)[i].v, ex.b.True}
+		}
+		*m = append(*m, syncMapEntry{args[1], args[2]})
+		return tuple{args[2], ex.b.False}
+	})
+	reg("(*sync.Map).Delete", func(ex *Exec, fr *frame, pos token.Pos, args []value) value {
+		m := ex.syncMapOf(args[0])
+		if i := ex.syncMapFind(m, args[1]); i >= 0 {
+			*m = append((*m)[:i], (*m)[i+1:]...)
+		}
+		return nil
+	})
 }
 
 func init() {
